@@ -2,14 +2,14 @@
 """Writes seeded/<id>/meta.json for every seed and seeded/RESULTS.md from /tmp/seed_results.txt (tools/run_all_seeds.sh)."""
 import json, os, re, glob
 
-ROOT = "/verif/seeded"
+ROOT = os.path.join(os.path.dirname(os.path.dirname(os.path.abspath(__file__))), "seeded")
 res = {}
-if os.path.exists("/verif/seeded/last_sweep.txt"):
-    for l in open("/verif/seeded/last_sweep.txt"):
-        m = re.match(r'^(C\d\d[a-d]) (C\d\d) rc=(\d+)\s*(.*)$', l.strip())
+if os.path.exists(os.path.join(ROOT, "last_sweep.txt")):
+    for l in open(os.path.join(ROOT, "last_sweep.txt")):
+        m = re.match(r'^(C\d\d[a-f]) (C\d\d) rc=(\d+)\s*(.*)$', l.strip())
         if m:
             res[m.group(1)] = {"check": m.group(2), "rc": int(m.group(3)), "lines": m.group(4)}
-props = {json.loads(l)["id"]: json.loads(l) for l in open("/verif/properties.jsonl")}
+props = {json.loads(l)["id"]: json.loads(l) for l in open(os.path.join(os.path.dirname(ROOT), "properties.jsonl"))}
 rows = []
 for d in sorted(glob.glob(ROOT + "/C*")):
     sid = os.path.basename(d)
@@ -17,7 +17,7 @@ for d in sorted(glob.glob(ROOT + "/C*")):
     notes = open(os.path.join(d, "agent_notes.md")).read() if os.path.exists(os.path.join(d, "agent_notes.md")) else ""
     # the section of this mutation
     secs = re.split(r'\n(?=#+ *Mutation)', notes)
-    want = {"a": "A", "b": "B", "c": "C", "d": "D"}[ab]
+    want = ab.upper()
     sec = next((s for s in secs if re.match(r'#+ *Mutation %s\b' % want, s)), None)
     if sec is None:
         sec = notes
